@@ -79,10 +79,18 @@
   changes between retries).
 
   Hypotheses (explicit, decidable): `cfg.TimeoutsPos`; for the liveness part
-  `noRaise` (no exception left the access point during the silent stretch: with
-  a local maxApduLengthAccepted < 50 or maxSegmentsAccepted = 1 every
-  transmission raises ValueError and `await_confirmation_timeout` skips
-  `self.retryCount = saveCount`, the counter restarts at 0 — no termination).
+  `noRaiseDue` (no exception left the access point in the steps in which k's own
+  timer fired) — DISCHARGED by the configuration: `noRaiseDue_of_cfg` proves it
+  from `cfgOk cfg` (local maxApduLengthAccepted ≥ 50 and maxSegmentsAccepted ≠ 1:
+  exactly the values `encode_max_apdu_length_accepted` / `encode_max_segments_
+  accepted` accept) in every reachable state, via the invariant `LiveInv`
+  (Lemmas/TsmC04Live, TsmC04LiveStep: what a listed client transaction remembers
+  lets it rebuild its segments).  `bounded_under_silence_cfg`,
+  `gone_after_deadline_cfg`, `exactly_one_in_bounded_time_cfg` carry no
+  trace-level hypothesis about exceptions.  Without `cfgOk` the hypothesis is
+  needed: with maxSegmentsAccepted = 1 every transmission raises ValueError and
+  `await_confirmation_timeout` skips `self.retryCount = saveCount`, the counter
+  restarts at 0 — no termination (last Tsm example).
 
   IOCB layer ("directly or through an I/O control block", "no … queue entry"):
   BacVerif.Model.Iocb, namespace BacVerif.C04.Io at the end of this file —
@@ -118,6 +126,7 @@
 -/
 import BacVerif.Lemmas.TsmC04Silent
 import BacVerif.Lemmas.TsmC04Pass
+import BacVerif.Lemmas.TsmC04LiveStep
 import BacVerif.Lemmas.IocbQueue
 namespace BacVerif.C04
 open BacVerif.Tsm
@@ -377,6 +386,22 @@ theorem noRaise_mem {outs : List Out} (h : noRaise outs = true) (r : Raise) : Ou
   simp only [noRaise, Bool.not_eq_true', List.any_eq_false] at h
   exact absurd rfl (h _ hm)
 
+/-- no exception left the access point in the steps in which k's OWN timer fired
+    (all the liveness theorems need; implied by `noRaise` of the whole run,
+    `noRaiseDue_of_noRaise`, and by an encodable configuration, `noRaiseDue_of_cfg`) -/
+def noRaiseDue (cfg : Cfg) (k : Key) : Sap → List Event → Bool
+  | _, [] => true
+  | s, e :: es => (!isDue s k e || noRaise (step cfg s e).2) && noRaiseDue cfg k (step cfg s e).1 es
+
+theorem noRaiseDue_cons {s : Sap} {e : Event} {es : List Event} {k : Key}
+    (h : noRaiseDue cfg k s (e :: es) = true) :
+    (isDue s k e = true → noRaise (step cfg s e).2 = true) ∧ noRaiseDue cfg k (step cfg s e).1 es = true := by
+  simp only [noRaiseDue, Bool.and_eq_true, Bool.or_eq_true, Bool.not_eq_true'] at h
+  refine ⟨fun hd => ?_, h.2⟩
+  rcases h.1 with h1 | h1
+  · rw [hd] at h1; cases h1
+  · exact h1
+
 theorem mu_le (cfg : Cfg) (s : Sap) (k : Key) : mu cfg s k ≤ 2 * cfg.retries + 1 := by
   unfold mu
   split
@@ -395,7 +420,7 @@ theorem mu_zero {s : Sap} {k : Key} : mu cfg s k = 0 ↔ findTxn k s.clients = n
 /-- **one silent event.**  The rank of `k` drops by at least one with every
     expiry of its own timer that fires, and never rises otherwise. -/
 theorem silent_step_mu (hpos : cfg.TimeoutsPos) {s : Sap} (hinv : Inv s) {e : Event}
-    (he : Silent e = true) (k : Key) (hnr : noRaise (step cfg s e).2 = true) :
+    (he : Silent e = true) (k : Key) (hnr : isDue s k e = true → noRaise (step cfg s e).2 = true) :
     mu cfg (step cfg s e).1 k + (if isDue s k e then 1 else 0) ≤ mu cfg s k := by
   rcases (silent_step_cases hpos hinv he k).2 with ⟨hd, hf⟩ | ⟨hd, t, d, hf, _, _, hcase⟩
   · simp only [mu, hf, hd]
@@ -406,22 +431,21 @@ theorem silent_step_mu (hpos : cfg.TimeoutsPos) {s : Sap} (hinv : Inv s) {e : Ev
       omega
     · simp only [mu, hsome, hf, hd, if_true]
       omega
-    · exact absurd hr (noRaise_mem hnr r)
+    · exact absurd hr (noRaise_mem (hnr hd) r)
 
 /-- **bounded_under_silence.**  From ANY state satisfying the invariant, over
     ANY sequence of timer expiries and clock ticks (no exception escaping):
     (rank of k afterwards) + (number of expiries of k's own timer that fired)
     ≤ (rank of k at the start). -/
 theorem bounded_under_silence (hpos : cfg.TimeoutsPos) (k : Key) : ∀ (es : List Event) {s : Sap}, Inv s →
-    (∀ e ∈ es, Silent e = true) → noRaise (run cfg s es).2 = true →
+    (∀ e ∈ es, Silent e = true) → noRaiseDue cfg k s es = true →
     mu cfg (run cfg s es).1 k + dueCount cfg k s es ≤ mu cfg s k := by
   intro es
   induction es with
   | nil => intro s _ _ _; simp [dueCount, run_nil]
   | cons e es ih =>
     intro s hinv hsil hnr
-    rw [run_cons_snd] at hnr
-    obtain ⟨hn1, hn2⟩ := noRaise_append hnr
+    obtain ⟨hn1, hn2⟩ := noRaiseDue_cons hnr
     have h1 := silent_step_mu hpos hinv (hsil e (List.mem_cons_self)) k hn1
     have h2 := ih (C11.inv_step hpos hinv e) (fun x hx => hsil x (List.mem_cons_of_mem _ hx)) hn2
     simp only [dueCount]
@@ -431,7 +455,7 @@ theorem bounded_under_silence (hpos : cfg.TimeoutsPos) (k : Key) : ∀ (es : Lis
 /-- **expiry_bound.**  Under silence a client transaction sees at most
     2·retries + 1 expiries of its own timer. -/
 theorem expiry_bound (hpos : cfg.TimeoutsPos) (k : Key) (es : List Event) {s : Sap} (hinv : Inv s)
-    (hsil : ∀ e ∈ es, Silent e = true) (hnr : noRaise (run cfg s es).2 = true) :
+    (hsil : ∀ e ∈ es, Silent e = true) (hnr : noRaiseDue cfg k s es = true) :
     dueCount cfg k s es ≤ 2 * cfg.retries + 1 := by
   have h := bounded_under_silence hpos k es hinv hsil hnr
   have := mu_le cfg s k
@@ -440,7 +464,7 @@ theorem expiry_bound (hpos : cfg.TimeoutsPos) (k : Key) (es : List Event) {s : S
 /-- **silence_terminates.**  Once as many expiries of its own timer have fired
     as its rank at the start of the silence says, the transaction is no longer listed. -/
 theorem silence_terminates (hpos : cfg.TimeoutsPos) (k : Key) (es : List Event) {s : Sap} (hinv : Inv s)
-    (hsil : ∀ e ∈ es, Silent e = true) (hnr : noRaise (run cfg s es).2 = true)
+    (hsil : ∀ e ∈ es, Silent e = true) (hnr : noRaiseDue cfg k s es = true)
     (hdue : mu cfg s k ≤ dueCount cfg k s es) :
     ∀ t ∈ (run cfg s es).1.clients, t.key ≠ k := by
   have h := bounded_under_silence hpos k es hinv hsil hnr
@@ -511,7 +535,7 @@ def NotOverdue (s : Sap) (k : Key) : Prop :=
   ∀ t, findTxn k s.clients = some t → ∃ d, t.body.timer = some d ∧ s.now ≤ d
 
 theorem silent_step_deadline (hpos : cfg.TimeoutsPos) {s : Sap} (hinv : Inv s) {e : Event}
-    (he : Silent e = true) (k : Key) (hnr : noRaise (step cfg s e).2 = true)
+    (he : Silent e = true) (k : Key) (hnr : isDue s k e = true → noRaise (step cfg s e).2 = true)
     (hp : prompt k s e = true) (hno : NotOverdue s k) :
     NotOverdue (step cfg s e).1 k ∧
     ((findTxn k (step cfg s e).1.clients).isSome → deadline cfg (step cfg s e).1 k ≤ deadline cfg s k) := by
@@ -563,13 +587,13 @@ theorem silent_step_deadline (hpos : cfg.TimeoutsPos) {s : Sap} (hinv : Inv s) {
               = (rank cfg b' - 1 + 1) * (maxT cfg * 1000) := by rw [Nat.add_mul, Nat.one_mul]
             _ ≤ (rank cfg t.body - 1) * (maxT cfg * 1000) := Nat.mul_le_mul_right _ this
         omega
-    · exact absurd hr (noRaise_mem hnr r)
+    · exact absurd hr (noRaise_mem (hnr hd) r)
 
 /-- **silence_deadline.**  Silence, a prompt scheduler, no exception: as long
     as `k` is listed the clock has not passed the deadline computed at the
     start of the silence. -/
 theorem silence_deadline (hpos : cfg.TimeoutsPos) (k : Key) : ∀ (es : List Event) {s : Sap}, Inv s →
-    (∀ e ∈ es, Silent e = true) → noRaise (run cfg s es).2 = true → promptRun cfg k s es = true →
+    (∀ e ∈ es, Silent e = true) → noRaiseDue cfg k s es = true → promptRun cfg k s es = true →
     NotOverdue s k → (findTxn k (run cfg s es).1.clients).isSome →
     (run cfg s es).1.now ≤ deadline cfg s k := by
   intro es
@@ -585,8 +609,7 @@ theorem silence_deadline (hpos : cfg.TimeoutsPos) (k : Key) : ∀ (es : List Eve
       omega
   | cons e es ih =>
     intro s hinv hsil hnr hpr hno hl
-    rw [run_cons_snd] at hnr
-    obtain ⟨hn1, hn2⟩ := noRaise_append hnr
+    obtain ⟨hn1, hn2⟩ := noRaiseDue_cons hnr
     simp only [promptRun, Bool.and_eq_true] at hpr
     have hstep := silent_step_deadline hpos hinv (hsil e (List.mem_cons_self)) k hn1 hpr.1 hno
     rw [run_cons_fst] at hl ⊢
@@ -639,7 +662,7 @@ theorem notOverdue_spec {s : Sap} {k : Key} (h : notOverdue s k = true) : NotOve
     scheduler, no exception: once the clock has passed the deadline computed at
     the start of the silence, the transaction `k` is no longer listed. -/
 theorem gone_after_deadline (hpos : cfg.TimeoutsPos) (k : Key) (es : List Event) {s : Sap} (hinv : Inv s)
-    (hsil : ∀ e ∈ es, Silent e = true) (hnr : noRaise (run cfg s es).2 = true)
+    (hsil : ∀ e ∈ es, Silent e = true) (hnr : noRaiseDue cfg k s es = true)
     (hpr : promptRun cfg k s es = true) (hno : notOverdue s k = true)
     (hlate : deadline cfg s k < (run cfg s es).1.now) :
     ∀ t ∈ (run cfg s es).1.clients, t.key ≠ k := by
@@ -700,7 +723,7 @@ theorem arrival_extends_once (hpos : cfg.TimeoutsPos) {s : Sap} (hinv : Inv s) (
     (2·retries + 1)·T after that instant. -/
 theorem time_bound (hpos : cfg.TimeoutsPos) (k : Key) (es : List Event) {s : Sap} (hinv : Inv s)
     {t : Txn} (hf : findTxn k s.clients = some t) (harm : ArmedAt cfg s.now t.body.timer)
-    (hsil : ∀ e ∈ es, Silent e = true) (hnr : noRaise (run cfg s es).2 = true)
+    (hsil : ∀ e ∈ es, Silent e = true) (hnr : noRaiseDue cfg k s es = true)
     (hpr : promptRun cfg k s es = true)
     (hl : (findTxn k (run cfg s es).1.clients).isSome) :
     (run cfg s es).1.now ≤ s.now + (2 * cfg.retries + 1) * (maxT cfg * 1000) := by
@@ -769,7 +792,7 @@ theorem exactly_one_in_bounded_time (hpos : cfg.TimeoutsPos) {s : Sap} (hinv : I
     let s1 := (step cfg s (.request peer service data chosen)).1
     let s2 := (run cfg s1 mid).1
     let s3 := (run cfg s2 sil).1
-    noRaise (run cfg s2 sil).2 = true → promptRun cfg k s2 sil = true → notOverdue s2 k = true →
+    noRaiseDue cfg k s2 sil = true → promptRun cfg k s2 sil = true → notOverdue s2 k = true →
     deadline cfg s2 k < s3.now →
       (∀ t ∈ s3.clients, t.key ≠ k) ∧
       nConfFor k ((step cfg s (.request peer service data chosen)).2 ++ (run cfg s1 mid).2 ++
@@ -787,6 +810,103 @@ theorem exactly_one_in_bounded_time (hpos : cfg.TimeoutsPos) {s : Sap} (hinv : I
 def allPass (cfg : Cfg) : Sap → List Event → Bool
   | _, [] => true
   | s, e :: es => (smapStep cfg s e).2.all (Out.passes cfg) && allPass cfg (step cfg s e).1 es
+
+/-! ## the liveness hypothesis discharged by the configuration -/
+
+/-- the old, stronger form of the hypothesis: no exception at all during the stretch -/
+theorem noRaiseDue_of_noRaise (k : Key) : ∀ (es : List Event) (s : Sap),
+    noRaise (run cfg s es).2 = true → noRaiseDue cfg k s es = true := by
+  intro es
+  induction es with
+  | nil => intro s _; rfl
+  | cons e es ih =>
+    intro s h
+    rw [run_cons_snd] at h
+    obtain ⟨h1, h2⟩ := noRaise_append h
+    simp only [noRaiseDue, Bool.and_eq_true, Bool.or_eq_true]
+    exact ⟨Or.inr h1, ih _ h2⟩
+
+/-- **noRaiseDue_of_cfg.**  With a local configuration that can be encoded in a
+    request header (`cfgOk`: maxApduLengthAccepted ≥ 50, maxSegmentsAccepted ≠ 1)
+    no expiry of a client timer ever lets an exception out — in any state
+    reachable by any event sequence (`Inv`, `LiveInv`), over any further events. -/
+theorem noRaiseDue_of_cfg (hpos : cfg.TimeoutsPos) (hok : cfgOk cfg = true) (k : Key) :
+    ∀ (es : List Event) {s : Sap}, Inv s → LiveInv cfg s → noRaiseDue cfg k s es = true := by
+  intro es
+  induction es with
+  | nil => intro s _ _; rfl
+  | cons e es ih =>
+    intro s hinv hlive
+    simp only [noRaiseDue, Bool.and_eq_true, Bool.or_eq_true, Bool.not_eq_true']
+    refine ⟨?_, ih (C11.inv_step hpos hinv e) (live_step hpos hinv hlive e)⟩
+    cases hd : isDue s k e with
+    | false => exact Or.inl rfl
+    | true =>
+      right
+      cases e with
+      | timeout srv p i =>
+        cases srv with
+        | true => simp [isDue] at hd
+        | false =>
+          have := client_timeout_noRaise hok hinv hlive p i
+          simp [noRaise, this]
+      | request _ _ _ _ => simp [isDue] at hd
+      | unconfirmed _ _ _ => simp [isDue] at hd
+      | response _ _ => simp [isDue] at hd
+      | frame _ _ => simp [isDue] at hd
+      | tick _ => simp [isDue] at hd
+      | learn _ _ => simp [isDue] at hd
+      | setDcc _ => simp [isDue] at hd
+
+/-- the two invariants hold initially and after any event sequence -/
+theorem reach_run (hpos : cfg.TimeoutsPos) (es : List Event) :
+    Inv (run cfg Sap.init es).1 ∧ LiveInv cfg (run cfg Sap.init es).1 :=
+  ⟨C11.inv_run hpos es C11.inv_init, live_run hpos es C11.inv_init LiveInv.init⟩
+
+/-- **bounded_under_silence_cfg.**  `bounded_under_silence` for every encodable
+    configuration, no trace-level hypothesis. -/
+theorem bounded_under_silence_cfg (hpos : cfg.TimeoutsPos) (hok : cfgOk cfg = true) (k : Key)
+    (es : List Event) {s : Sap} (hinv : Inv s) (hlive : LiveInv cfg s)
+    (hsil : ∀ e ∈ es, Silent e = true) :
+    mu cfg (run cfg s es).1 k + dueCount cfg k s es ≤ mu cfg s k ∧
+    dueCount cfg k s es ≤ 2 * cfg.retries + 1 := by
+  have hnr := noRaiseDue_of_cfg hpos hok k es hinv hlive
+  exact ⟨bounded_under_silence hpos k es hinv hsil hnr, expiry_bound hpos k es hinv hsil hnr⟩
+
+/-- **gone_after_deadline_cfg** -/
+theorem gone_after_deadline_cfg (hpos : cfg.TimeoutsPos) (hok : cfgOk cfg = true) (k : Key)
+    (es : List Event) {s : Sap} (hinv : Inv s) (hlive : LiveInv cfg s)
+    (hsil : ∀ e ∈ es, Silent e = true) (hpr : promptRun cfg k s es = true)
+    (hno : notOverdue s k = true) (hlate : deadline cfg s k < (run cfg s es).1.now) :
+    ∀ t ∈ (run cfg s es).1.clients, t.key ≠ k :=
+  gone_after_deadline hpos k es hinv hsil (noRaiseDue_of_cfg hpos hok k es hinv hlive) hpr hno hlate
+
+/-- **exactly_one_in_bounded_time_cfg.**  For EVERY configuration with positive
+    timeouts, maxApduLengthAccepted ≥ 50 and maxSegmentsAccepted ≠ 1, from any
+    reachable state: a request, ANY events, then silence under a prompt
+    scheduler; once the clock has passed the deadline `k` is gone, at most one
+    confirmation reached the application overall, exactly one if `k` was still
+    pending when the silence began.  No hypothesis on exceptions. -/
+theorem exactly_one_in_bounded_time_cfg (hpos : cfg.TimeoutsPos) (hok : cfgOk cfg = true) {s : Sap}
+    (hinv : Inv s) (hlive : LiveInv cfg s) (peer : Peer)
+    (service : Nat) (data : Bytes) (chosen : Option Nat) (k : Key) (mid sil : List Event)
+    (hno : noReqFor cfg k (step cfg s (.request peer service data chosen)).1 mid = true)
+    (hsil : ∀ e ∈ sil, Silent e = true) :
+    let s1 := (step cfg s (.request peer service data chosen)).1
+    let s2 := (run cfg s1 mid).1
+    let s3 := (run cfg s2 sil).1
+    promptRun cfg k s2 sil = true → notOverdue s2 k = true → deadline cfg s2 k < s3.now →
+      (∀ t ∈ s3.clients, t.key ≠ k) ∧
+      nConfFor k ((step cfg s (.request peer service data chosen)).2 ++ (run cfg s1 mid).2 ++
+        (run cfg s2 sil).2) ≤ 1 ∧
+      (liveC s2 k = 1 → nConfFor k (run cfg s2 sil).2 = 1) := by
+  intro s1 s2 s3 hpr hnov hlate
+  have hinv1 : Inv s1 := C11.inv_step hpos hinv _
+  have hlive1 : LiveInv cfg s1 := live_step hpos hinv hlive _
+  have hinv2 : Inv s2 := C11.inv_run hpos mid hinv1
+  have hlive2 : LiveInv cfg s2 := live_run hpos mid hinv1 hlive1
+  have hnr : noRaiseDue cfg k s2 sil = true := noRaiseDue_of_cfg hpos hok k sil hinv2 hlive2
+  exact exactly_one_in_bounded_time hpos hinv peer service data chosen k mid sil hno hsil hnr hpr hnov hlate
 
 /-- **app_exact.**  Under `allPass` the counting equation holds with equality
     at the APPLICATION boundary over any run without a new request for `k`. -/
@@ -839,6 +959,10 @@ def exCfg : Cfg :=
 
 theorem exCfg_pos : exCfg.TimeoutsPos := ⟨by decide, by decide, by decide⟩
 
+/-- the example configuration (and the regenerated defaults of the live class)
+    can be encoded: the `_cfg` theorems apply -/
+theorem exCfg_ok : cfgOk exCfg = true ∧ cfgOk BacVerif.Gen.TsmDefaults.cfg = true := by decide
+
 /-- a request, total silence: one retry, then the locally generated Abort -/
 def exSilence : List Event :=
   [.request 0 200 [1, 2, 3] none, .tick 3000000, .timeout false 0 1, .tick 3000000, .timeout false 0 1]
@@ -865,6 +989,7 @@ example :
     let s1 := (step exCfg Sap.init (.request 0 200 [1, 2, 3] none)).1
     let sil := exSilence.tail ++ [.tick 10000000]
     (∀ e ∈ sil, Silent e = true) ∧ noRaise (run exCfg s1 sil).2 = true ∧
+    noRaiseDue exCfg ⟨0, 1⟩ s1 sil = true ∧
     promptRun exCfg ⟨0, 1⟩ s1 sil = true ∧ notOverdue s1 ⟨0, 1⟩ = true ∧
     deadline exCfg s1 ⟨0, 1⟩ = 15000000 ∧ (run exCfg s1 sil).1.now = 16000000 ∧ liveC s1 ⟨0, 1⟩ = 1 ∧
     noReqFor exCfg ⟨0, 1⟩ s1 [] = true := by
@@ -925,11 +1050,13 @@ example :
     nConfFor ⟨0, 1⟩ (run exCfg Sap.init exTight).2 = 1 ∧ noRaise (run exCfg Sap.init exTight).2 = true := by
   decide +kernel
 
-/-- the hypothesis `noRaise` is needed: a local maxSegmentsAccepted = 1 cannot be
-    encoded, every transmission raises, the retry counter restarts — after six
-    expiries the transaction is still listed with retry count 0 -/
+/-- the hypothesis (`noRaiseDue`, resp. `cfgOk`) is needed: a local
+    maxSegmentsAccepted = 1 cannot be encoded (`cfgOk` false), every transmission
+    raises, the retry counter restarts — after six expiries the transaction is
+    still listed with retry count 0 -/
 example :
     let bad : Cfg := { exCfg with maxSegs := some 1 }
+    cfgOk bad = false ∧
     let es : List Event := [.request 0 200 [1] none,
       .tick 3000000, .timeout false 0 1, .tick 3000000, .timeout false 0 1, .tick 3000000, .timeout false 0 1,
       .tick 3000000, .timeout false 0 1, .tick 3000000, .timeout false 0 1, .tick 3000000, .timeout false 0 1]
